@@ -73,7 +73,7 @@ CLAIMED["C04"] = dict(
     note="Recursive types are enumerated to depth 3 (deeper than every pattern used). Alias patterns only with irrefutable members (the checker rejects others by design).",
     technique="bounded-exhaustive enumeration of pattern matrices with a brute-force value-enumeration oracle",
 )
-FMT = "sources = mini corpus + 43 formatter minis + grammar pairs (every production, parenthesised, in every one-hole context) + a stride of the generated programs of both universes + repository sources (size-limited per tier); deviations at every token gap (whitespace kinds, one parenthesised atom, one comment of 6 kinds); all 336 directive combinations on undeviated minis and 6 key configurations elsewhere (the 3 wide ones only for sources above 1500 bytes); each formatter call on the real PrettyFormatter under catch_unwind in a worker with a 120 s watchdog per case"
+FMT = "sources = mini corpus + 43 formatter minis + grammar pairs (every production, parenthesised, in every one-hole context) + a stride of the generated programs of both universes + repository sources (size-limited per tier); deviations at every token gap (whitespace kinds, one parenthesised atom, one comment of 9 kinds); all 336 directive combinations on undeviated minis and 6 key configurations elsewhere (the 3 wide ones only for sources above 1500 bytes); each formatter call on the real PrettyFormatter under catch_unwind in a worker with a 120 s watchdog per case"
 CLAIMED["C12"] = dict(
     category="exploration",
     text="Formatting is total and meaning-preserving: " + FMT + "; oracle: no unwind or hang, the output parses, and the desugared structure (bitter arena printed without ids/spans) of output and input are equal.",
@@ -83,7 +83,7 @@ CLAIMED["C12"] = dict(
 )
 CLAIMED["C13"] = dict(
     category="exploration",
-    text="Formatting never loses source text: " + FMT + ", with each of the 6 comment kinds inserted at every visited token gap; oracle = independent hand-written scanner on input and output: identical ordered comment lists, and every name/literal token accounted for.",
+    text="Formatting never loses source text: " + FMT + ", with each of the 9 comment kinds inserted at every visited token gap; oracle = independent hand-written scanner on input and output: identical ordered comment lists, and every name/literal token accounted for.",
     design_ref="C13",
     note="Comment position is checked only as order (the conservative reading); float literals are compared by value (the printer respells them).",
     technique="exhaustive comment insertion at token gaps with an independent-scanner oracle",
